@@ -128,7 +128,7 @@ def same_domain(kind, a, b):
     return any(lo <= a['resid'] <= hi and lo <= b['resid'] <= hi for lo, hi in regions)
 
 
-def check(shape, params, acc, sample=False, shared=None):
+def check(shape, params, acc, sample=False, shared=None, ffvars=None):
     import functools
     import numpy as np
     from vermouth.processors.apply_rubber_band import ApplyRubberBand
@@ -138,6 +138,13 @@ def check(shape, params, acc, sample=False, shared=None):
     case = {'shape': [nres, sc_mask, graph_kind, geometry, order_kind if isinstance(order_kind, str) else list(order_kind),
                       list(selection), rot_idx, list(nan_on) if nan_on else None],
             'params': [domain, lower, upper, [decay_a, decay_p], minforce, sep]}
+    bond_type = 6
+    if ffvars is not None:
+        # the processor is built without bond type / minimum separation: both come from the force field of
+        # the molecule at hand (documented priority: argument, then force-field variable, then default)
+        case['ffvars'] = dict(ffvars)
+        bond_type = ffvars.get('elastic_network_bond_type', 6)
+        sep = ffvars.get('elastic_network_res_min_dist', 2)
     rot = ROTS[rot_idx] if rot_idx is not None else None
     mol, info = build(nres, sc_mask, graph_kind, geometry, order_kind, rot=rot, nan_on=nan_on)
     selector = functools.partial(selectors.proto_select_attribute_in, attribute='atomname', values=list(selection))
@@ -145,10 +152,14 @@ def check(shape, params, acc, sample=False, shared=None):
         processor = shared['processor']       # ONE processor instance over several molecules
     else:
         processor = ApplyRubberBand(lower_bound=lower, upper_bound=upper, decay_factor=decay_a, decay_power=decay_p,
-                                    base_constant=BASE, minimum_force=minforce, res_min_dist=sep, bond_type=6,
+                                    base_constant=BASE, minimum_force=minforce,
+                                    res_min_dist=sep if ffvars is None else None, bond_type=6 if ffvars is None else None,
                                     selector=selector, domain_criterion=domain_fn(domain))
         if shared is not None:
             shared['processor'] = processor
+    if ffvars is not None:
+        import types
+        mol._force_field = types.SimpleNamespace(variables=dict(ffvars), name='toy')   # pylint: disable=protected-access
     try:
         with common.LogCapture() as log:
             processor.run_molecule(mol)
@@ -225,10 +236,10 @@ def check(shape, params, acc, sample=False, shared=None):
         else:
             for key, (length, const) in expected.items():
                 params_got = got[key]
-                if (len(params_got) != 3 or params_got[0] != 6 or abs(float(params_got[1]) - length) > 1e-9
+                if (len(params_got) != 3 or params_got[0] != bond_type or abs(float(params_got[1]) - length) > 1e-9
                         or abs(float(params_got[2]) - const) > 1e-9 * max(1.0, const)):
-                    problems.append(('c15:wrong-parameters', 'bond %r has parameters %r, expected [6, %r, %r]' % (
-                        sorted(key), list(params_got), length, const)))
+                    problems.append(('c15:wrong-parameters', 'bond %r has parameters %r, expected [%r, %r, %r]' % (
+                        sorted(key), list(params_got), bond_type, length, const)))
                     break
     acc.case(nontrivial=len(verdicts) > 1 and bool(expected), outcome=(len(expected), len(got)),
              sample=dict(case, bonds=len(got)) if sample else None)
@@ -257,11 +268,12 @@ PARAMS = list(itertools.product(DOMAINS, (0.0, 0.5), (0.9, 0.5), ((0, 1), (0.8, 
 
 def reuse_case(item, acc):
     """One ApplyRubberBand instance applied to several different molecules in turn; every molecule judged on its own."""
-    shapes_seq, params = item
+    shapes_seq, params = item[:2]
+    ffseq = item[2] if len(item) > 2 and item[2] else [None] * len(shapes_seq)
     shared = {}
     before = len(acc.violations)
-    for shape in shapes_seq:
-        check(shape, params, acc, shared=shared)
+    for shape, ffvars in zip(shapes_seq, ffseq):
+        check(shape, params, acc, shared=shared, ffvars=dict(ffvars) if ffvars is not None else None)
     for idx in range(before, len(acc.violations)):
         sig, desc, case = acc.violations[idx]
         acc.violations[idx] = (sig + '(instance-reuse)', 'one processor instance over several molecules: ' + desc,
@@ -318,6 +330,11 @@ def run(ctx):
             (4, 0, 'crosslink', 'line', 'reversed', ('BB', 'SC1'), None, None), (3, 0b001, 'gap', 'L', 'contiguous', ('BB', 'SC1'), None, None)]
     reuse_params = [p for p in PARAMS if p[1] == 0.0 and p[2] == 0.9 and p[3] == (0.8, 1) and p[4] == 0.0 and p[5] in (0, 1)]
     items = [(seq, params) for n in (2, 3) for seq in itertools.permutations(pool, n) for params in reuse_params]
+    # the same, with bond type and minimum separation taken from each molecule's own force field
+    ffchoices = [(), (('elastic_network_res_min_dist', 1),), (('elastic_network_bond_type', 1), ('elastic_network_res_min_dist', 3)),
+                 (('elastic_network_bond_type', 8),)]
+    items += [(seq, params, ffs) for seq in itertools.permutations(pool, 2) for params in reuse_params[:2]
+              for ffs in itertools.product(ffchoices, repeat=2)]
     acc = Acc()
     for part in common.pmap(work, [('reuse', chunk) for chunk in common.chunked(items, max(1, len(items) // 32))]):
         acc += part
@@ -330,8 +347,10 @@ def replay(case):
     if 'reuse' in case:
         def shp(x):
             return (x[0], x[1], x[2], x[3], x[4] if isinstance(x[4], str) else tuple(x[4]), tuple(x[5]), x[6], tuple(x[7]) if x[7] else None)
-        seq, p = case['reuse']
-        reuse_case((tuple(shp(x) for x in seq), (p[0], p[1], p[2], tuple(p[3]), p[4], p[5])), acc)
+        seq, p = case['reuse'][:2]
+        ffs = case['reuse'][2] if len(case['reuse']) > 2 else None
+        ffs = [tuple(tuple(kv) for kv in f) for f in ffs] if ffs else None
+        reuse_case((tuple(shp(x) for x in seq), (p[0], p[1], p[2], tuple(p[3]), p[4], p[5]), ffs), acc)
         return [(s_, d) for s_, d, _ in acc.violations]
     s = case['shape']
     shape = (s[0], s[1], s[2], s[3], s[4] if isinstance(s[4], str) else tuple(s[4]), tuple(s[5]), s[6], tuple(s[7]) if s[7] else None)
